@@ -344,6 +344,8 @@ pub fn run(ctx: &Ctx, model: &mut Model, rep: &mut Report) {
             }
         }
         let via = act::via_for(i as u64);
+        // `Echo`: the text under test is the note as iwe formats it (what the editor holds after a formatting edit)
+        let text = if via == act::Via::Echo { crate::props::c01::format_single("n", &text, "").unwrap_or(text) } else { text };
         rep.count(&format!("loaded_via_{:?}", via));
         if let Some(w) = act::with_via(via, || check_text(&text)) {
             if !ascii_lf && d14 {
